@@ -73,8 +73,8 @@ func execute(p program, plan []int) (o outcome) {
 	}()
 	select {
 	case <-done:
-	case <-time.After(20 * time.Second):
-		o.viol = "the program did not finish within 20s (Close or a reader hangs)"
+	case <-time.After(5 * time.Second):
+		o.viol = "the program did not finish within 5s (Close or a reader hangs)"
 	}
 	o.calls, o.trace = sh.ncalls(), sh.trace()
 	maxFired := -1
